@@ -41,6 +41,20 @@ def model_controls(ctx):
     return 1
 
 
+def _shape_sets():
+    """cue shapes a writer's own reader must take back: cues shorter than a MicroDVD frame and of zero
+    length, rows of exactly 31 / 32 / 33 / 47 / 64 characters (SCC wraps at 32), many rows"""
+    out = []
+    for s, e in ((6_000_000, 6_030_000), (6_000_000, 6_000_000), (6_039_000, 6_041_000), (5_000_000, 5_000_001)):
+        out.append(build.simple_set([(3_000_000, 4_500_000, ["before"]), (s, e, ["flash"]), (9_000_000, 10_500_000, ["after"])]))
+    word = "abcdefghij"
+    for n in (31, 32, 33, 47, 64):
+        line = (" ".join([word] * 8))[:n].rstrip() if n != 32 else "abcdefghij abcdefghij abcdefghijk"
+        out.append(build.simple_set([(5_000_000, 7_000_000, [line]), (9_000_000, 11_000_000, ["x" * 32]),
+                                     (13_000_000, 15_000_000, ["one", "two", "three", "four"])]))
+    return out
+
+
 def _sample_sets(rng, n):
     out = []
     for _ in range(n):
@@ -72,9 +86,14 @@ def inputs(ctx):
         ins.append({"id": "n%d" % k, "kind": "probe", "text": "".join(
             chr(rng.choice([rng.randrange(1, 256), 10, 13, 0x7b, 0x7d, 0x31, 0x2d, 0x3e, 0x85, 0x2028]))
             for _ in range(ln))})
-    sets = _sample_sets(rng, 6 if ctx.quick else 40)
+    nrand = 6 if ctx.quick else 40
+    sets = _sample_sets(rng, nrand) + _shape_sets()
     docs = []
     for k, s in enumerate(sets):
+        if k >= nrand:
+            for w in WRITERS:
+                ins.append({"id": "w%d-%s" % (k, w), "kind": "self", "writer": w, "set": s})
+            continue
         for w in WRITERS:
             ins.append({"id": "w%d-%s" % (k, w), "kind": "self", "writer": w, "set": s})
             if k < (2 if ctx.quick else 8):
